@@ -56,13 +56,54 @@ def ref_loops(ctx, f, label):
     return loops[1] if ok else None
 
 
-def name_rewrite_ok(stmts, refvar):
-    """ref->name = (char*)reallocate(ref->name, size); memcpy(ref->name, new_name, size) with size = 1 + strlen(new_name)"""
+def origin_params(fn, e, depth=0):
+    """indices of the parameters of fn that the value of e is read from (through locals with a single definition)"""
+    out = set()
+    if e is None or depth > 6:
+        return out
+    for x in e.walk():
+        if x.k != 'DeclRefExpr':
+            continue
+        if x.dk == 'param':
+            out |= {i for i, p in enumerate(fn.params) if p['d'] == x.d}
+        elif x.dk == 'local':
+            ds = [v.child('init') for v in fn.walk() if v.k == 'VarDecl' and v.d == x.d and v.child('init') is not None]
+            if len(ds) == 1:
+                out |= origin_params(fn, ds[0], depth + 1)
+    return out
+
+
+def strcmp_old(fn, cond, path):
+    """cond is `strcmp(<local>->path..., <the old name>) == 0` (either operand order, either argument order), where the old
+    name is read from the first parameter of fn (directly or through a local)"""
+    c = _strip_casts(cond)
+    if c is None or c.k != 'BinaryOperator' or c.op != '==':
+        return False
+    l, r = _strip_casts(c.child('lhs')), _strip_casts(c.child('rhs'))
+    call = l if l.k == 'CallExpr' else r if r.k == 'CallExpr' else None
+    zero = r if call is l else l
+    if call is None or call.callee != 'strcmp' or zero.cv != 0 or len(call.args) != 2:
+        return False
+    for x, y in ((call.args[0], call.args[1]), (call.args[1], call.args[0])):
+        x = _strip_casts(x)
+        names = []
+        while x is not None and x.k == 'MemberExpr':
+            if x.n:
+                names.append(x.n)          # anonymous union members are transparent
+            x = _strip_casts(x.child('base'))
+        if x is not None and x.k == 'DeclRefExpr' and x.dk == 'local' and tuple(reversed(names)) == tuple(path) and origin_params(fn, y) == {0}:
+            return True
+    return False
+
+
+def name_rewrite_ok(stmts, refvar=None):
+    """X->name = (char*)reallocate(X->name, N); memcpy(X->name, <new name parameter>, N) with the same X and the same N
+    (N = 1 + strlen(new name) is decided by the size rule); local names are irrelevant"""
     re_ = None
     mc = None
     for s in stmts:
         for x in s.walk():
-            if is_assign(x) and x.child('lhs').text() == refvar + '->name' and 'gdstk::reallocate(' in x.child('rhs').text():
+            if is_assign(x) and _strip_casts(x.child('lhs')).k == 'MemberExpr' and _strip_casts(x.child('lhs')).n == 'name' and 'gdstk::reallocate(' in x.child('rhs').text():
                 re_ = x
             if x.k == 'CallExpr' and x.callee == 'memcpy':
                 mc = x
@@ -73,16 +114,34 @@ def name_rewrite_ok(stmts, refvar):
         ra = _strip_casts(ra.child('sub')) if ra.child('sub') is not None else None
     if ra is None:
         return False, 'reallocate call not found'
-    a = [norm(z.text()) for z in ra.args]
-    b = [norm(z.text()) for z in mc.args]
-    if not (a[0].endswith(refvar + '->name') and a[1] == 'size' and b[0].endswith(refvar + '->name') and b[1].endswith('new_name') and b[2] == 'size'):
+    tgt = norm(_strip_casts(re_.child('lhs')).text())
+    a = [norm(_strip_casts(z).text()) for z in ra.args]
+    b = [norm(_strip_casts(z).text()) for z in mc.args]
+    fn = mc.fn
+    if not (a[0] == tgt and b[0] == tgt and a[1] == b[2] and origin_params(fn, mc.args[1]) == {len(fn.params) - 1}):
         return False, 'reallocate/memcpy operands are not (ref->name, size) / (ref->name, new_name, size): %s / %s' % (a, b)
     return True, ''
 
 
 def size_decl_ok(f):
-    v = next((v for v in f.walk() if v.k == 'VarDecl' and v.n == 'size'), None)
-    return v is not None and norm(v.child('init').text()) in ('(1 + strlen(new_name))', '(strlen(new_name) + 1)')
+    """every reallocate in f gets 1 + strlen(<new name>) bytes (through a local of any name), the new name being read from the last parameter"""
+    calls = [c for c in f.walk() if c.k == 'CallExpr' and c.callee == 'gdstk::reallocate']
+    if not calls:
+        return False
+    for c in calls:
+        e = _strip_casts(c.args[1])
+        if e.k == 'DeclRefExpr' and e.dk == 'local':
+            ds = [v.child('init') for v in f.walk() if v.k == 'VarDecl' and v.d == e.d and v.child('init') is not None]
+            if len(ds) != 1:
+                return False
+            e = _strip_casts(ds[0])
+        if e.k != 'BinaryOperator' or e.op != '+':
+            return False
+        l, r = _strip_casts(e.child('lhs')), _strip_casts(e.child('rhs'))
+        one, sl = (l, r) if l.cv == 1 else (r, l)
+        if one.cv != 1 or sl.k != 'CallExpr' or sl.callee != 'strlen' or origin_params(f, sl.args[0]) != {len(f.params) - 1}:
+            return False
+    return True
 
 
 def check_replace(ctx, db):
@@ -127,29 +186,44 @@ def check_replace(ctx, db):
                 if iff is None or len(stmts) != 1:
                     ctx.violation('R-TABLE', key, top.loc(), 'arm is not a single guarded rewrite')
                     continue
-                cond = norm(iff.child('cond').text())
-                then = [x for x in (iff.child('then').c if iff.child('then').k == 'CompoundStmt' else [iff.child('then')]) if x is not None]
+                # names of locals are irrelevant: the arm is printed with its locals numbered by first occurrence
+                # (the reference cursor is v0) and parameters by name; `a == b` is compared as the set {a, b}
+                ren = clone.Renamer(f, params_by_name=True)
+                cnode = _strip_casts(iff.child('cond'))
+                cond = norm(cnode.text(ren))
+                then = iff.child('then').stmts()
+
+                def eq_sides(c):
+                    c = _strip_casts(c)
+                    if c is not None and c.k == 'BinaryOperator' and c.op == '==':
+                        return frozenset((norm(_strip_casts(c.child('lhs')).text(ren)), norm(_strip_casts(c.child('rhs')).text(ren))))
+                    return None
                 if arm == 'Name':
-                    okc = cond == '(rename && (strcmp(ref->name, old_name) == 0))'
-                    okw, why = name_rewrite_ok(then, 'ref')
+                    flag = _strip_casts(cnode.child('lhs')) if cnode.k == 'BinaryOperator' and cnode.op == '&&' else None
+                    okc = flag is not None and flag.k == 'DeclRefExpr' and flag.dk == 'local' and strcmp_old(f, cnode.child('rhs'), ('name',))
+                    okw, why = name_rewrite_ok(then, None)
                     ctx.check(okc and okw, 'R-TABLE', key, top.loc(), 'by-name references equal (full strcmp) to the old name are renamed when the names differ',
                               'Name arm: condition `%s` %s' % (cond, why))
                     continue
-                want_cond = '(ref->%s == old_cell)' % MEMBER[arm] if arm == old_k else '(strcmp(ref->%s->name, old_name) == 0)' % MEMBER[arm]
+                if arm == old_k:
+                    want_cond = '(ref->%s == old_cell)' % MEMBER[arm]
+                    okc = eq_sides(cnode) == frozenset(('v0->%s' % MEMBER[arm], '$old_cell'))
+                else:
+                    want_cond = '(strcmp(ref->%s->name, old_name) == 0)' % MEMBER[arm]
+                    okc = strcmp_old(f, cnode, (MEMBER[arm], 'name'))
                 stores = {}
                 for x in then:
                     if is_assign(x):
-                        stores[norm(x.child('lhs').text())] = norm(x.child('rhs').text())
+                        stores[re.sub(r'^v\d+->', 'ref->', norm(x.child('lhs').text(ren)))] = norm(x.child('rhs').text(ren)).replace('$', '')
                 want = {'ref->%s' % MEMBER[new_k]: 'new_cell'}
                 if arm != new_k:
                     want['ref->type'] = 'ReferenceType::%s' % new_k
-                okc = cond == want_cond
                 oks = stores == want or (arm == new_k and stores == dict(want, **{'ref->type': 'ReferenceType::%s' % new_k}))
                 ctx.check(okc and oks, 'R-TABLE', key, top.loc(), 'matches %s and stores %s' % (want_cond, want),
                           'arm %s of %s: expected condition %s with stores %s; found condition %s with stores %s' % (arm, label, want_cond, want, cond, stores))
                 # order: tag store precedes member store when both are present
                 if 'ref->type' in stores:
-                    order = [norm(x.child('lhs').text()) for x in then if is_assign(x)]
+                    order = [re.sub(r'^v\d+->', 'ref->', norm(x.child('lhs').text(ren))) for x in then if is_assign(x)]
                     ctx.check(order.index('ref->type') < order.index('ref->%s' % MEMBER[new_k]), 'R-TAGUNION', key + '/tag-then-member', top.loc(), 'the tag is stored before the member of the new kind')
 
 
@@ -167,16 +241,27 @@ def check_rename(ctx, db):
     ctx.check(size_decl_ok(f), 'R-CONST', label + '/size', f.loc(), 'size = 1 + strlen(new_name)')
     iff = next((s for s in (inner.child('body').walk() if inner is not None else []) if s.k == 'IfStmt'), None)
     cond = norm(iff.child('cond').text()) if iff is not None else ''
-    okc = cond == '((ref->type == ReferenceType::Name) && (strcmp(ref->name, old_name) == 0))'
-    okw, why = name_rewrite_ok([iff.child('then')], 'ref') if iff is not None else (False, 'no guarded rewrite')
+    cn = _strip_casts(iff.child('cond')) if iff is not None else None
+    okc = False
+    if cn is not None and cn.k == 'BinaryOperator' and cn.op == '&&':
+        tl = _strip_casts(cn.child('lhs'))
+        if tl.k == 'BinaryOperator' and tl.op == '==':
+            a_, b_ = _strip_casts(tl.child('lhs')), _strip_casts(tl.child('rhs'))
+            tagm = next((z for z in (a_, b_) if z.k == 'MemberExpr' and z.n == 'type' and z.arrow), None)
+            enum = next((z for z in (a_, b_) if z.k == 'DeclRefExpr' and z.dk == 'enum' and z.n == 'Name'), None)
+            okc = tagm is not None and enum is not None and strcmp_old(f, cn.child('rhs'), ('name',))
+    okw, why = name_rewrite_ok(iff.child('then').stmts(), None) if iff is not None else (False, 'no guarded rewrite')
     ctx.check(okc and okw, 'R-TABLE', label + '/by-name-references', f.loc(), 'by-name references equal (full strcmp) to the old name are rewritten to the new name',
               'rename_cell: condition `%s` (expected type == Name && strcmp(ref->name, old_name) == 0) %s' % (cond, why))
-    old = next((v for v in f.walk() if v.k == 'VarDecl' and v.n == 'old_name'), None)
+    # the cell's own name is rewritten after the loops; the old name compared in the loops aliases cell->name (first parameter)
+    p0 = 'v%d:%s' % (f.params[0]['d'], f.params[0]['n'])
     tail = [s for s in f.body.c if s is not None and (inner is None or s.id > inner.id)]
-    cellw, _ = (False, '')
-    re_ = next((x for s in tail for x in s.walk() if is_assign(x) and norm(x.child('lhs').text()) == 'cell->name'), None)
+    re_ = next((x for s in tail for x in s.walk() if is_assign(x) and lvalue_key(_strip_casts(x.child('lhs'))) == p0 + '->name'), None)
     mc = next((x for s in tail for x in s.walk() if x.k == 'CallExpr' and x.callee == 'memcpy'), None)
-    ok = old is not None and norm(old.child('init').text()) == 'cell->name' and re_ is not None and mc is not None and [norm(z.text()) for z in mc.args][1:] == ['new_name', 'size']
+    ok = re_ is not None and mc is not None and lvalue_key(_strip_casts(mc.args[0])) == p0 + '->name' and origin_params(f, mc.args[1]) == {len(f.params) - 1}
+    if ok:
+        ra = next((c for c in re_.child('rhs').walk() if c.k == 'CallExpr' and c.callee == 'gdstk::reallocate'), None)
+        ok = ra is not None and norm(_strip_casts(ra.args[1]).text()) == norm(_strip_casts(mc.args[2]).text())
     ctx.check(ok, 'R-PAIRCALL', label + '/cell-renamed-last', f.loc(), 'the cell\'s own name is rewritten after all references were compared against it (old_name aliases cell->name)')
     # name overload: looks the cell up and delegates only when found
     t = norm(clone.canon(g.body, g, ren=clone.Renamer(g, params_by_name=True)))
